@@ -274,7 +274,7 @@ class Scenario(Session):
     def new_caps(self):
         caps = {}
         r = self.rng.random()
-        if r < 0.45: caps[0x21] = self.rng.choice([1, 1, 2, 3, 10, 65535])      # receive maximum
+        if r < (0.85 if self.profile == "inbound" else 0.45): caps[0x21] = self.rng.choice([1, 1, 2, 3, 10, 65535])      # receive maximum
         if self.rng.random() < 0.15: caps[0x13] = self.rng.choice([0, 3, 7])   # server keep alive
         if self.rng.random() < 0.2: caps[0x24] = self.rng.choice([0, 1])        # maximum QoS
         if self.rng.random() < 0.15: caps[0x25] = 0                             # retain available
@@ -295,7 +295,8 @@ class Scenario(Session):
             if not self.connected: acts.append(("connect", 25))
             else:
                 acts.append(("drop", 12 if self.profile == "session" else 5))
-                if self.sub_ok or rng.random() < 0.1: acts.append(("bpub", 6))
+                if self.profile == "inbound": acts.append(("bpub", 32))          # a busy broker: many inbound messages, acknowledgements pile up behind throttled publishes
+                elif self.sub_ok or rng.random() < 0.1: acts.append(("bpub", 6))
             if self.sid in self.write_pending and self.connected: acts += [("wok", 30), ("early", 6)]
             if self.sid in self.read_pending and self.connected and self.broker_out: acts.append(("rx", 35))
             if self.held and self.connected: acts.append(("release", 6))
